@@ -133,6 +133,17 @@ def run(cfg, tier, seed, replay=None):
             else:
                 unknown.append(m)
         sem_is_property = cfg.get("sem_is_property", True)
+        if not sem_is_property and unknown:
+            # this property only uses the reference differential to LOOK for a failing input; a
+            # disagreement on a pattern inside a class recorded as a known finding of ANOTHER
+            # property (e.g. a conditional under an atomic cut, F-condleak) is that property's
+            # finding, not a failure of this one
+            allf = core.load_known()["findings"]
+            def foreign(m):
+                return any(CLASSES.get(f["class"]) and CLASSES[f["class"]](byp[m["pattern"]]) for f in allf)
+            other = [m for m in unknown if foreign(m)]
+            unknown = [m for m in unknown if not foreign(m)]
+            notes["reference_differential"]["disagreements_inside_known_classes_of_other_properties"] = len(other)
         okd = res.oblige("%s: public API (captures_from_pos at every boundary offset) = reference semantics Sem on %d evaluations" % ("property" if sem_is_property else "search", n), not unknown)
         if unknown:
             unknown.sort(key=lambda m: (len(m["pattern"]), len(m["text"])))
